@@ -82,3 +82,95 @@ def renamed_tree(repo=None):
         total += len(picked)
     open(done, 'w').write(str(total))
     return ov, total
+
+
+# ---- further generated variants: no-op statements, dropped braces --------------------------------------------------------------------
+_OPEN = re.compile(r'^(?P<ind>\s*)(?!namespace\b|class\b|struct\b|enum\b|union\b|extern\b|switch\b)(?P<body>.*\)\s*(const\s*)?(noexcept\s*)?(override\s*)?(->\s*[\w:<>,\s\*&]+\s*)?\{\s*)$')
+_ELSE = re.compile(r'^(?P<ind>\s*)\}\s*else\s*\{\s*$')
+_HEAD = re.compile(r'^(?P<ind>\s*)(?P<kw>if|for|while) \((?P<c>.*)\) \{\s*$')
+
+
+def _noop(src):
+    """`(void)0;` at the top of every function / lambda / if / else / for / while / catch block (switch bodies excepted)."""
+    out, k = [], 0
+    for line in src.split('\n'):
+        out.append(line)
+        m = _OPEN.match(line) or _ELSE.match(line)
+        if m and 'switch (' not in line and 'switch(' not in line and not line.strip().startswith(('//', '*', '#')):
+            out.append(m.group('ind') + '    (void)0;')
+            k += 1
+    return '\n'.join(out), k
+
+
+def _unbrace(src):
+    """Braces dropped from `if/for/while (...) { single statement; }` (three-line form, no else)."""
+    lines = src.split('\n')
+    out, i, k = [], 0, 0
+    while i < len(lines):
+        m = _HEAD.match(lines[i])
+        if m and i + 2 < len(lines) and lines[i + 2] == m.group('ind') + '}' and lines[i + 1].startswith(m.group('ind') + '    ') \
+                and lines[i + 1].rstrip().endswith(';') and not re.match(r'\s*(if|for|while|do|switch|else|case|default|//|/\*|#)', lines[i + 1]) \
+                and not re.match(r'\s*(const |auto |std::|[A-Za-z_:<>]+ [a-z_]+( =|\{|;))', lines[i + 1]) \
+                and lines[i + 1].count('(') == lines[i + 1].count(')') and m.group('c').count('(') == m.group('c').count(')') \
+                and not (i + 3 < len(lines) and re.match(r'\s*else\b', lines[i + 3])):
+            out.append('%s%s (%s)' % (m.group('ind'), m.group('kw'), m.group('c')))
+            out.append(lines[i + 1])
+            i += 3
+            k += 1
+            continue
+        out.append(lines[i])
+        i += 1
+    return '\n'.join(out), k
+
+
+TRANSFORMS = {'noop': (_noop, 'no-op statements `(void)0;` inserted at the top of blocks'),
+              'unbraced': (_unbrace, 'single-statement if/for/while blocks with their braces dropped')}
+
+
+def _syntax_ok(args):
+    import subprocess
+    ov, unit = args
+    r = subprocess.run(['g++', '-std=c++20', '-fsyntax-only', '-I', 'include', '-I', 'src', unit], cwd=ov, capture_output=True, text=True)
+    return r.returncode == 0
+
+
+def transformed_tree(kind, repo=None):
+    """Path of an overlay of `repo` with TRANSFORMS[kind] applied to every product unit that still parses afterwards (built once
+    per source state under .work/, guarded by a lock file), and the number of edits made."""
+    import fcntl
+    from concurrent.futures import ThreadPoolExecutor
+    repo = repo or build.REPO
+    fn_, _desc = TRANSFORMS[kind]
+    ov = os.path.join(WORK, '%s-%s' % (kind, _tree_hash(repo)))
+    done = os.path.join(ov, '.complete')
+    os.makedirs(WORK, exist_ok=True)
+    with open(os.path.join(WORK, '.%s.lock' % kind), 'w') as lk:
+        fcntl.flock(lk, fcntl.LOCK_EX)
+        if os.path.exists(done):
+            return ov, int(open(done).read() or 0)
+        if os.path.exists(ov):
+            shutil.rmtree(ov)
+        os.makedirs(ov)
+        for sub in ('src', 'include', 'cmake'):
+            s = os.path.join(repo, sub)
+            if os.path.isdir(s):
+                shutil.copytree(s, os.path.join(ov, sub))
+        shutil.copy(os.path.join(repo, 'CMakeLists.txt'), ov)
+        units = build.all_units(repo)
+        orig, counts = {}, {}
+        for u in units:
+            p = os.path.join(ov, u)
+            orig[u] = open(p).read()
+            t, k = fn_(orig[u])
+            counts[u] = k
+            open(p, 'w').write(t)
+        with ThreadPoolExecutor(max_workers=8) as ex:
+            oks = list(ex.map(_syntax_ok, [(ov, u) for u in units]))
+        total = 0
+        for u, ok in zip(units, oks):
+            if ok:
+                total += counts[u]
+            else:
+                open(os.path.join(ov, u), 'w').write(orig[u])
+        open(done, 'w').write(str(total))
+        return ov, total
